@@ -19,7 +19,7 @@ LEVEL = "model_checking"
 CFG = '''CONSTANTS Names = {"a", "b", "c"}
 InitWeights = {1, 3}
 AddWeights <- %s
-Values <- ValSet
+Values <- %s
 Flavour = "%s"
 MaxLen = %d
 Export = %s
@@ -139,12 +139,12 @@ def run(run):
     quick = run.tier == "quick"
     ml = 3 if quick else 4
     run.rule = "every history of length %d over construct / add / eval with three names, both flavours; distinct by (flavour, history)" % ml
-    g = tlc.run("MC_Composite", CFG % (ADDS["metric"], "metric", 3, "FALSE", "norescale"), workers=4, timeout=600)
+    g = tlc.run("MC_Composite", CFG % (ADDS["metric"], "ValSet", "metric", 3, "FALSE", "norescale"), workers=4, timeout=600)
     if g.ok or "WeightsSumToOne" not in " ".join(g.violated):
         raise tlc.TLCFailure("vacuity guard: design 'norescale' not rejected (%s)" % (g.violated,))
     run.extra["vacuity_guard"] = "design 'norescale' (old weights kept when a weighted member is added) violates WeightsSumToOne"
     for flavour in ("metric", "loss"):
-        r = tlc.run("MC_Composite", CFG % (ADDS[flavour], flavour, ml, "TRUE", "code"), workers=1, timeout=3000, heap="12g")
+        r = tlc.run("MC_Composite", CFG % (ADDS[flavour], "ValSet" if quick else "ValSet2", flavour, ml, "TRUE", "code"), workers=1, timeout=3000, heap="12g")
         if not r.ok:
             raise tlc.TLCFailure("MC_Composite %s: %s %s" % (flavour, r.errors, r.violated))
         run.add_tlc("MC_Composite %s MaxLen=%d" % (flavour, ml), r)
@@ -164,7 +164,7 @@ def run(run):
         run.log("%s: %d histories replayed" % (flavour, len(hs)))
     # binding demonstration: histories of the wrong design must be rejected by the real objects
     r = tlc.run("MC_Composite", CFG.replace("INVARIANT WeightsSumToOne\n", "").replace("INVARIANT Convex\n", "").replace("INVARIANT ProportionsKept\n", "").replace("INVARIANT LossWeightPreserved\n", "")
-                % (ADDS["metric"], "metric", 3, "TRUE", "norescale"), workers=1, timeout=600)
+                % (ADDS["metric"], "ValSet", "metric", 3, "TRUE", "norescale"), workers=1, timeout=600)
     hs = [h[1] for h in r.tuples("CHIST")]
     nbad = sum(1 for h in hs if replay("metric", h))
     if nbad == 0:
